@@ -1,7 +1,7 @@
 use crate::visit::{
-    Data, GraphBase, GraphProp, GraphRef, IntoEdgeReferences, IntoEdges, IntoEdgesDirected,
-    IntoNeighbors, IntoNeighborsDirected, IntoNodeIdentifiers, IntoNodeReferences,
-    NodeCompactIndexable, NodeCount, NodeIndexable, Visitable,
+    Data, EdgeRef, GraphBase, GraphProp, GraphRef, IntoEdgeReferences, IntoEdges,
+    IntoEdgesDirected, IntoNeighbors, IntoNeighborsDirected, IntoNodeIdentifiers,
+    IntoNodeReferences, NodeCompactIndexable, NodeCount, NodeIndexable, Visitable,
 };
 use crate::Direction;
 
@@ -27,11 +27,96 @@ impl<G> IntoEdges for UndirectedAdaptor<G>
 where
     G: IntoEdgesDirected,
 {
-    type Edges = core::iter::Chain<G::EdgesDirected, G::EdgesDirected>;
+    type Edges = core::iter::Chain<
+        MaybeReversedEdges<G::EdgesDirected>,
+        MaybeReversedEdges<G::EdgesDirected>,
+    >;
+    /// As for every undirected graph, each edge is reported with `a` as its source: the
+    /// incoming edges of the wrapped graph are reversed.
     fn edges(self, a: Self::NodeId) -> Self::Edges {
-        self.0
-            .edges_directed(a, Direction::Incoming)
-            .chain(self.0.edges_directed(a, Direction::Outgoing))
+        let incoming = MaybeReversedEdges {
+            iter: self.0.edges_directed(a, Direction::Incoming),
+            reversed: true,
+        };
+        let outgoing = MaybeReversedEdges {
+            iter: self.0.edges_directed(a, Direction::Outgoing),
+            reversed: false,
+        };
+        incoming.chain(outgoing)
+    }
+}
+
+impl<G> IntoEdgeReferences for UndirectedAdaptor<G>
+where
+    G: IntoEdgeReferences,
+{
+    type EdgeRef = MaybeReversedEdgeReference<G::EdgeRef>;
+    type EdgeReferences = MaybeReversedEdges<G::EdgeReferences>;
+    fn edge_references(self) -> Self::EdgeReferences {
+        MaybeReversedEdges {
+            iter: self.0.edge_references(),
+            reversed: false,
+        }
+    }
+}
+
+/// An edges iterator which may reverse the edge orientation.
+#[derive(Debug, Clone)]
+pub struct MaybeReversedEdges<I> {
+    iter: I,
+    reversed: bool,
+}
+
+impl<I> Iterator for MaybeReversedEdges<I>
+where
+    I: Iterator,
+    I::Item: EdgeRef,
+{
+    type Item = MaybeReversedEdgeReference<I::Item>;
+    fn next(&mut self) -> Option<Self::Item> {
+        self.iter.next().map(|x| MaybeReversedEdgeReference {
+            inner: x,
+            reversed: self.reversed,
+        })
+    }
+    fn size_hint(&self) -> (usize, Option<usize>) {
+        self.iter.size_hint()
+    }
+}
+
+/// An edge reference which may reverse the edge orientation.
+#[derive(Copy, Clone, Debug)]
+pub struct MaybeReversedEdgeReference<R> {
+    inner: R,
+    reversed: bool,
+}
+
+impl<R> EdgeRef for MaybeReversedEdgeReference<R>
+where
+    R: EdgeRef,
+{
+    type NodeId = R::NodeId;
+    type EdgeId = R::EdgeId;
+    type Weight = R::Weight;
+    fn source(&self) -> Self::NodeId {
+        if self.reversed {
+            self.inner.target()
+        } else {
+            self.inner.source()
+        }
+    }
+    fn target(&self) -> Self::NodeId {
+        if self.reversed {
+            self.inner.source()
+        } else {
+            self.inner.target()
+        }
+    }
+    fn weight(&self) -> &Self::Weight {
+        self.inner.weight()
+    }
+    fn id(&self) -> Self::EdgeId {
+        self.inner.id()
     }
 }
 
@@ -54,7 +139,6 @@ macro_rules! access0 {
 
 GraphBase! {delegate_impl [[G], G, UndirectedAdaptor<G>, access0]}
 Data! {delegate_impl [[G], G, UndirectedAdaptor<G>, access0]}
-IntoEdgeReferences! {delegate_impl [[G], G, UndirectedAdaptor<G>, access0]}
 Visitable! {delegate_impl [[G], G, UndirectedAdaptor<G>, access0]}
 NodeIndexable! {delegate_impl [[G], G, UndirectedAdaptor<G>, access0]}
 NodeCompactIndexable! {delegate_impl [[G], G, UndirectedAdaptor<G>, access0]}
